@@ -80,6 +80,7 @@ type Config struct {
 	ShortReads bool    `json:"short_reads"`
 	Ping       bool    `json:"ping"`
 	Batch      bool    `json:"batch"` // register all handlers with one AddGeneric/AddListener call
+	Ping2      bool    `json:"ping2"` // two overlapping status queries with different client protocol numbers
 }
 
 var (
@@ -204,6 +205,36 @@ type listPing struct {
 	*server.PlayerList
 }
 
+// echoPing answers with the client's own protocol number, so that the status JSON of two
+// overlapping queries differs.
+type echoPing struct {
+	*server.PingInfo
+	*server.PlayerList
+}
+
+func (e echoPing) Protocol(clientProtocol int32) int { return int(clientProtocol) }
+
+// rawStatus is a minimal status client: handshake with the given protocol number, status request,
+// read the response (the server side is what is under test here).
+func rawStatus(c *vnet.Conn, protocol int32) ([]byte, error) {
+	conn := mcnet.WrapConn(c)
+	if err := conn.WritePacket(pk.Marshal(0x00, pk.VarInt(protocol), pk.String("localhost"), pk.UnsignedShort(25565), pk.VarInt(1))); err != nil {
+		return nil, err
+	}
+	if err := conn.WritePacket(pk.Marshal(packetid.ServerboundStatusStatusRequest)); err != nil {
+		return nil, err
+	}
+	var p pk.Packet
+	if err := conn.ReadPacket(&p); err != nil {
+		return nil, err
+	}
+	var s pk.String
+	if err := p.Scan(&s); err != nil {
+		return nil, err
+	}
+	return []byte(s), nil
+}
+
 // Obs is everything observed in one execution.
 type Obs struct {
 	Notes        []string
@@ -220,6 +251,9 @@ type Obs struct {
 	PingData     []byte
 	PingErr      error
 	ServerWriteE error
+	Ping2Data    [16][]byte
+	Ping2Err     [16]error
+	Ping2N       int
 }
 
 type Pkt2 struct {
@@ -282,8 +316,39 @@ func newServer(cfg Config, obs *Obs) *server.Server {
 	}
 }
 
+// session2 runs two overlapping status queries against ONE server value.
+func session2(cfg Config, obs *Obs) {
+	srv := newServer(cfg, obs)
+	srv.ListPingHandler = echoPing{server.NewPingInfo("verif", 767, chat.Text("verif motd"), nil), server.NewPlayerList(20)}
+	var hs []sched.Handle
+	n := 2
+	if !sched.Controlled {
+		n = 16 // free-running pass: more overlapping queries for the race detector
+	}
+	obs.Ping2N = n
+	for i := 0; i < n; i++ {
+		i := i
+		a, b := vnet.Pipe()
+		hs = append(hs, sched.GoJoinable(fmt.Sprintf("server%d", i), func() { srv.AcceptConn(mcnet.WrapConn(b)) }))
+		hs = append(hs, sched.GoJoinable(fmt.Sprintf("status-client%d", i), func() {
+			data, err := rawStatus(a, int32(1001+i))
+			lock()
+			obs.Ping2Data[i], obs.Ping2Err[i] = data, err
+			unlock()
+			a.Close()
+		}))
+	}
+	for _, h := range hs {
+		h.Join()
+	}
+}
+
 // session runs one complete bot<->server session as the main controlled thread.
 func session(cfg Config, obs *Obs) {
+	if cfg.Ping2 {
+		session2(cfg, obs)
+		return
+	}
 	a, b := vnet.Pipe()
 	a.ExploreShortReads(cfg.ShortReads)
 	b.ExploreShortReads(cfg.ShortReads)
@@ -363,6 +428,25 @@ func session(cfg Config, obs *Obs) {
 // judge compares the observations with the property.
 func judge(cfg Config, o *Obs) (class, detail string) {
 	fam := cfg.Family
+	if cfg.Ping2 {
+		for i := 0; i < o.Ping2N; i++ {
+			if o.Ping2Err[i] != nil {
+				return "ping2/error", fmt.Sprintf("status query %d failed: %v", i, o.Ping2Err[i])
+			}
+			var got struct {
+				Version struct {
+					Protocol int `json:"protocol"`
+				} `json:"version"`
+			}
+			if err := json.Unmarshal(o.Ping2Data[i], &got); err != nil {
+				return "ping2/not-json", fmt.Sprintf("status response %d %q: %v", i, o.Ping2Data[i], err)
+			}
+			if got.Version.Protocol != 1001+i {
+				return "ping2/answer-of-another-query", fmt.Sprintf("status query %d (protocol %d) received %s", i, 1001+i, o.Ping2Data[i])
+			}
+		}
+		return "", ""
+	}
 	if cfg.Ping {
 		if o.PingErr != nil {
 			return "ping/error", fmt.Sprintf("pingAndList failed: %v", o.PingErr)
@@ -603,6 +687,8 @@ func genConfig(c *engine.Chooser, family string) Config {
 		cfg.Batch = pick(2) == 1
 		cfg.S2C = []Pkt{{idX, 4, 1}, {idY, 3, 2}}
 		cfg.FailAt = []int{-1, n / 2}[pick(2)]
+	case "ping-concurrent":
+		cfg.Ping2 = true
 	case "ping":
 		cfg.Ping = true
 		cfg.ShortReads = true
@@ -623,6 +709,7 @@ var families = []struct {
 	{"dispatch-many", 0, 0},
 	{"burst", 2, 3},
 	{"ping", 3, 4},
+	{"ping-concurrent", 2, 3},
 }
 
 type famStat struct {
